@@ -12,9 +12,9 @@ if [ "$1" = "--demo" ]; then
   run=$(python3 -c "import json;print(json.load(open('$d/meta.json'))['demo']['run'])")
   mod=$(cd $wt/$cp && while [ ! -f go.mod ]; do cd ..; done; pwd)
   cp $d/demo_test.go $wt/$cp/zz_demo_test.go
-  echo "== demo without change"; (case "$run" in cd\ *) cd $wt;; *) cd $wt/$cp;; esac; timeout 600 bash -c "$run" 2>&1 | tail -3)
+  echo "== demo without change"; (case "$run" in *cd\ *) cd $wt;; *) cd $wt/$cp;; esac; timeout 600 bash -c "$run" 2>&1 | tail -3)
   git -C $wt apply $d/patch.diff || { echo "PATCH DOES NOT APPLY"; exit 2; }
-  echo "== demo with change"; (case "$run" in cd\ *) cd $wt;; *) cd $wt/$cp;; esac; timeout 600 bash -c "$run" 2>&1 | tail -3)
+  echo "== demo with change"; (case "$run" in *cd\ *) cd $wt;; *) cd $wt/$cp;; esac; timeout 600 bash -c "$run" 2>&1 | tail -3)
   rm $wt/$cp/zz_demo_test.go
   echo "== suite with change ($mod)"; (cd $mod && timeout 1500 go test -count=1 ./... 2>&1 | grep -v "^ok\|no test files" | tail -5)
 else
